@@ -4,6 +4,8 @@ import (
 	"context"
 	"time"
 
+	"google.golang.org/protobuf/proto"
+
 	"github.com/smart-core-os/sc-api/go/traits"
 	"github.com/smart-core-os/sc-golang/pkg/resource"
 )
@@ -69,7 +71,9 @@ func (m *Model) setLevelFromPreset(b *traits.Brightness) bool {
 	for _, p := range m.presets {
 		if p.Name == b.GetPreset().GetName() {
 			b.LevelPercent = p.levelPercent
-			b.Preset = p.LightPreset // sets the title if needed
+			// sets the title if needed; a copy, b belongs to the caller who may edit it after the call,
+			// the configured preset must not become reachable from it
+			b.Preset = proto.Clone(p.LightPreset).(*traits.LightPreset)
 			return true
 		}
 	}
